@@ -243,12 +243,20 @@ package bufimageutil
 //@   modifies heap
 //@   ensures not-in-closure-dropped: !f_kept(f_mode(old(closure.elements), imageFile.FileDescriptorProto()), old(options.includeTypes) == nil) ==> r == nil && err == nil
 //@   ensures survivor-in-closure: r != nil && err == nil ==> f_kept(f_mode(old(closure.elements), imageFile.FileDescriptorProto()), old(options.includeTypes) == nil)
+// "surviving elements are otherwise unchanged", copying mode: the source-info locations of the INPUT image are never
+// written: a location whose path is rewritten or whose comments are dropped is a copy made during this call.
+//@   assert before "location.Path = newPath" path-rewritten-on-a-copy: forall l ref :: l == location && !options.mutateInPlace ==> !old(allocated(l))
+//@   assert before "location.LeadingDetachedComments = nil" comments-dropped-on-a-copy: forall l ref :: l == location && !options.mutateInPlace ==> !old(allocated(l))
 //
 // In-place filtering rewrites the given descriptor itself; otherwise a copy is made (shallowClone: reflection, no claim).
 //@ func maybeClone(value, options) (r)
 //@   property C12
-//@   modifies heap
 //@   ensures in-place-same: old(options.mutateInPlace) ==> r == value
+//@   ensures copying-gives-a-new-object: !old(options.mutateInPlace) ==> r != nil && !old(allocated(r))
+// shallowClone builds its result with protoreflect's src.New() and copies the fields into it through reflection (outside
+// the fragment): trusted to return a newly allocated message and to leave every existing object as it is.
+//@ trusted func shallowClone(message) (r)
+//@   ensures r != nil && !old(allocated(r))
 //
 // includeType: the documented failures. A name that is neither an element nor a package; an element of an imported
 // file unless imported types are allowed (not stated here: see report, IsImport resolves differently in code and spec); an element that was excluded; an extension whose extendee was excluded.
